@@ -10,6 +10,7 @@ A program:
    "exit_us": t,                           final ExitMainLoop alarm "X" (preceded by the no-op sentinel alarm "S")
    "more": [{"pre": [op, ...], "exit_us": t}, ...]}   further run() calls on the SAME loop object (loops that allow a
                                            restart): ops issued between the runs, then alarms "S<k>", "X<k>" and run()
+   "fd0": bool                             descriptor key 0 IS file descriptor 0 (real: our pipe dup2()ed over stdin; virtual: fd number 0)
    ("restart": true is the old spelling of "more": [{"pre": [], "exit_us": 5000}])
 ops (times in microseconds):
   ["alarm", cbid, us] ["rm_alarm", cbid] ["watch", cbid, fd] ["rm_watch", cbid] ["idle", cbid] ["rm_idle", cbid]
@@ -41,11 +42,20 @@ TAIL_US = 60000  # quiet tail of every program: S at -30 ms, X at the end
 class RealEnv:
     mode = "real"
 
-    def __init__(self, loopname, nfd):
+    def __init__(self, loopname, nfd, fd0=False):
         import urwid  # noqa: F401
 
         self.name = loopname
         self.pipes = [os.pipe() for _ in range(nfd)]
+        self.saved_stdin = None
+        if fd0 and nfd:
+            # descriptor key 0 becomes file descriptor 0 (what urwid's raw display watches): the read end of our pipe
+            # is dup2()ed over the process's stdin, which the harness does not use; restored in close()
+            self.saved_stdin = os.dup(0)
+            r, w = self.pipes[0]
+            os.dup2(r, 0)
+            os.close(r)
+            self.pipes[0] = (0, w)
         for r, _w in self.pipes:
             os.set_blocking(r, False)
         self.files = {}
@@ -185,16 +195,20 @@ class RealEnv:
         for f in self.files.values():
             f.close()
         for r, w in self.pipes:
-            os.close(r)
+            if r != 0:
+                os.close(r)
             os.close(w)
+        if self.saved_stdin is not None:
+            os.dup2(self.saved_stdin, 0)
+            os.close(self.saved_stdin)
 
 
 class VirtualEnv:
     mode = "virtual"
 
-    def __init__(self, loopname, nfd, arrivals, order):
+    def __init__(self, loopname, nfd, arrivals, order, fd0=False):
         self.name = loopname
-        self.vos = VirtualOS(nfd, arrivals, order)
+        self.vos = VirtualOS(nfd, arrivals, order, fd_base=0 if fd0 else 100)
         self.clock = self.vos.time
         self._restore = []
         if loopname == "select":
@@ -219,9 +233,9 @@ class VirtualEnv:
     def fdobj(self, k):
         if self.name == "zmq":
             if k not in self.files:
-                self.files[k] = FakeFile(k)
+                self.files[k] = FakeFile(k, self.vos.fd_base)
             return self.files[k]
-        return FakeSelectorsModule.FD_BASE + k
+        return self.vos.fd_base + k
 
     def readable(self):
         return self.vos.readable()
@@ -260,9 +274,9 @@ def execute(prog) -> list[dict]:
     from urwid.event_loop.abstract_loop import ExitMainLoop
 
     if prog["mode"] == "virtual":
-        env = VirtualEnv(prog["loop"], prog["nfd"], prog.get("arrivals", ()), prog.get("order", "reg"))
+        env = VirtualEnv(prog["loop"], prog["nfd"], prog.get("arrivals", ()), prog.get("order", "reg"), prog.get("fd0", False))
     else:
-        env = RealEnv(prog["loop"], prog["nfd"])
+        env = RealEnv(prog["loop"], prog["nfd"], prog.get("fd0", False))
     try:
         probe = Probe(env.loop, env.clock, env.readable)
         env.attach(probe)
@@ -518,6 +532,8 @@ def gen_random(rng, loop, mode, zmq_fractional=False):
         prog["arrivals"] = sorted(arr)
         prog["order"] = rng.choice(["reg", "rev"])
     prog["restart"] = False
+    if nfd and rng.random() < 0.35:
+        prog["fd0"] = True
     if loop in RESTARTABLE and rng.random() < 0.3:
         more = []
         for _seg in range(rng.choice([1, 1, 1, 2])):
@@ -649,6 +665,15 @@ def directed(loop, mode):
                     cbs["b0"] = [[["raise", "boom"]]]  # the second run ends by an exception, too
                 P(2, pre, cbs)
                 out[-1]["more"] = more
+    # the same programs with descriptor key 0 being file descriptor 0 (stdin, the descriptor urwid's raw display
+    # watches; also the only falsy descriptor / handle value)
+    import copy
+
+    for prog in list(out):
+        if prog["nfd"]:
+            p0 = copy.deepcopy(prog)
+            p0["fd0"] = True
+            out.append(p0)
     return out
 
 
@@ -684,7 +709,7 @@ def enum_actions(n_events):
 IDLE_VARIANTS = ("plain", "rm_self", "rm_sibling", "add", "boom", "exit", "none")
 
 
-def build_enum(loop, n_a, n_f, ranks, action, order, unit_us, idle_variant="plain", second=None):
+def build_enum(loop, n_a, n_f, ranks, action, order, unit_us, idle_variant="plain", second=None, fd0=False):
     """n_a alarms and n_f descriptor arrivals at times rank*unit; one actor"""
     n = n_a + n_f
     ids = [f"a{j}" for j in range(n_a)] + [f"w{j}" for j in range(n_f)]
@@ -745,6 +770,8 @@ def build_enum(loop, n_a, n_f, ranks, action, order, unit_us, idle_variant="plai
         "restart": False,
     }
     prog["exit_us"] = (max(ranks) + 4) * unit_us + TAIL_US
+    if fd0 and n_f:
+        prog["fd0"] = True
     if second == "alarms":
         prog["more"] = [{"pre": [["alarm", "b0", 0], ["alarm", "b1", 2 * unit_us]], "exit_us": 2 * unit_us + TAIL_US}]
     elif second == "watch":
@@ -766,6 +793,10 @@ def shrink_candidates(prog):
     if prog.get("restart"):
         p = clone()
         p["restart"] = False
+        yield p
+    if prog.get("fd0"):
+        p = clone()
+        del p["fd0"]
         yield p
     for k in range(len(prog.get("more", ())) - 1, -1, -1):
         if k == len(prog["more"]) - 1:
